@@ -278,14 +278,18 @@ class C18(Check):
             idx = list(range(n))
             i1, i2, i3 = min(1, n - 1), min(2, n - 1), min(3, n - 1)
             try:
+                # the SAME argument arrays are handed to every call of a history (original and copy alike):
+                # an operation must not write into the array it is given
+                if not hasattr(st, 'args'):
+                    st.args = {k: T[k].copy() for k in ('d', 'p', 'rot')}
                 if name == 'move':
-                    obj.move(T['d'].copy())
+                    obj.move(st.args['d'])
                     mod.pos = mod.pos + T['d']
                 elif name == 'move_to':
-                    obj.move_to(T['p'].copy())
+                    obj.move_to(st.args['p'])
                     mod.pos = mod.pos + (T['p'] - mod.pos.mean(axis=0))
                 elif name == 'rotate':
-                    obj.rotate(T['rot'].copy())
+                    obj.rotate(st.args['rot'])
                     c = mod.pos.mean(axis=0)
                     mod.pos = (mod.pos - c) @ T['rot'].T + c
                 elif name == 'set_pos':
@@ -361,6 +365,9 @@ class C18(Check):
             except Exception as exc:
                 V.append((f'{st.kind}/{name}/unexpected-exception', repr(exc)))
                 return V
+            # (an operation that overwrites the array it was given is not reported by itself - the statement does
+            # not mention it - but through its consequence: the next call given the same array no longer moves its
+            # object "to the requested point" / "by exactly the displacement" the caller wrote into that array)
         # oracle: both sides against their models
         for side in ('orig', 'copy'):
             obj = st.orig if side == 'orig' else st.copy
